@@ -198,6 +198,33 @@ func (si *StrideInfo) LoopFootprints() []Footprint {
 						}
 					case ssa.CallInstruction:
 						// offsets handed to other kernels (internal.Equal(ring, i, ring, j))
+						for _, target := range CallbackTargets(x) {
+							// the loop body is a callback: its indices relative to the offsets handed to it
+							csi := si.All[target]
+							if csi == nil {
+								continue
+							}
+							for i, prm := range target.Params {
+								if i >= len(x.Common().Args) || !isIntT(prm.Type()) {
+									continue
+								}
+								al := si.linOf(x.Common().Args[i], 0)
+								if al.Base != ssa.Value(phi) {
+									continue
+								}
+								for _, m := range csi.paramOffsets(prm) {
+									fp.Sites++
+									q := al.M + m
+									if first || q < fp.MinQ {
+										fp.MinQ = q
+									}
+									if first || q > fp.MaxQ {
+										fp.MaxQ = q
+									}
+									first = false
+								}
+							}
+						}
 						if callee := x.Common().StaticCallee(); callee != nil {
 							for i, prm := range callee.Params {
 								if i < len(x.Common().Args) && isIntT(prm.Type()) {
@@ -230,6 +257,42 @@ func (si *StrideInfo) LoopFootprints() []Footprint {
 				}
 			}
 			out = append(out, fp)
+		}
+	}
+	return out
+}
+
+// paramOffsets: the stride multiples q of the flat-array indices prm + q*stride (+c) in the function.
+func (si *StrideInfo) paramOffsets(prm *ssa.Parameter) []int64 {
+	var out []int64
+	visit := func(idx ssa.Value) {
+		if l := si.linOf(idx, 0); l.OK && l.Base == ssa.Value(prm) {
+			out = append(out, l.M)
+		}
+	}
+	for _, b := range si.Fn.Blocks {
+		for _, in := range b.Instrs {
+			switch x := in.(type) {
+			case *ssa.IndexAddr:
+				if isFlatArray(x.X.Type()) {
+					visit(x.Index)
+				}
+			case *ssa.Slice:
+				if isFlatArray(x.X.Type()) && x.Low != nil {
+					visit(x.Low)
+				}
+			case ssa.CallInstruction:
+				if callee := x.Common().StaticCallee(); callee != nil {
+					for i, p := range callee.Params {
+						if i < len(x.Common().Args) && isIntT(p.Type()) {
+							csi := si.All[callee]
+							if alignedParamName(p.Name()) || (csi != nil && csi.CoordBaseParam(p)) {
+								visit(x.Common().Args[i])
+							}
+						}
+					}
+				}
+			}
 		}
 	}
 	return out
